@@ -91,6 +91,9 @@ class SkipStageHandler(StabilizeHandler[SkipStage]):
                     stage.name,
                     stage.id,
                 )
+                # ... but a cancel that only set the flag (WorkflowStore.cancel() called
+                # directly) produced no fan-out: finish it for this stage here.
+                self._finish_cancel_for(stage, message, "SkipStage")
                 return
 
             # Mark stage as skipped
